@@ -156,6 +156,7 @@ Definition wfc (P : list aparam) (id : cid) (c : contract) : Prop :=
   id = (c_hl c, c_sender c, c_to c, c_amount c)
   /\ coins_pos (c_amount c)
   /\ c_sender c <> ESC /\ c_sender c <> BLK /\ c_to c <> ESC /\ c_to c <> BLK
+  /\ (0 <= c_sender c /\ 0 <= c_to c)
   /\ (if c_transfer c then (exists d x, c_amount c = [(d, x)] /\ get_param P d <> None) /\ c_dir c <> DNone
       else c_dir c = DNone).
 
@@ -194,7 +195,8 @@ Record Inv (s : state) : Prop := mkInv {
      exists c, get id (st_contracts s) = Some c /\ c_state c = Open /\ c_exp c = h;
   inv_openq : forall id c, get id (st_contracts s) = Some c -> c_state c = Open ->
      In (c_exp c, id) (st_queue s) /\ st_height s <= c_exp c;
-  inv_log : forall id, filter (ev_for id) (st_log s) = expected_log id (get id (st_contracts s)) }.
+  inv_log : forall id, filter (ev_for id) (st_log s) = expected_log id (get id (st_contracts s));
+  inv_keys : NoDup (keys (st_contracts s)) }.
 
 (** "contract [c] is opened under the fresh id [id]" *)
 Record open_rel (s s' : state) (id : cid) (c : contract) : Prop := mkOpenRel {
@@ -303,6 +305,7 @@ Proof.
     + rewrite or_fresh0. rewrite (filter_ev_same id _ (open_events_id id c)). simpl.
       rewrite or_open0. simpl. rewrite app_nil_r. reflexivity.
     + rewrite (filter_ev_other id id' _ Hne (open_events_id id c)). reflexivity.
+  - rewrite or_contracts0. apply keys_set_NoDup. exact (inv_keys _ I).
 Qed.
 
 Lemma close_rel_inv s s' id c st : Inv s -> close_rel s s' id c st -> Inv s'.
@@ -337,6 +340,7 @@ Proof.
     + rewrite cr_get0. rewrite (filter_ev_same id _ (close_events_id id c st)). simpl.
       rewrite cr_open0. reflexivity.
     + rewrite (filter_ev_other id id' _ Hne (close_events_id id c st)). reflexivity.
+  - rewrite cr_contracts0. apply keys_set_NoDup. exact (inv_keys _ I).
 Qed.
 
 (** ** Part 3: the operations *)
@@ -396,6 +400,16 @@ Proof.
   split; [exact (coins_valid_pos _ H4)|]. unfold MinTimeLock in H5. apply Z.leb_le in H5. exact H5.
 Qed.
 
+Lemma create_basic_addrs m : create_basic m = true -> 0 <= m_sender m /\ 0 <= m_to m.
+Proof.
+  unfold create_basic, addr_ok. intros H.
+  apply andb_true_iff in H. destruct H as [H _].
+  apply andb_true_iff in H. destruct H as [H _].
+  apply andb_true_iff in H. destruct H as [H _].
+  apply andb_true_iff in H. destruct H as [H _].
+  apply andb_true_iff in H. destruct H as [H1 H2]. apply Z.leb_le in H1, H2. auto.
+Qed.
+
 Definition new_contract (s : state) (m : create_msg) (dr : dir) : contract :=
   mkC (m_sender m) (m_to m) (m_amount m) (m_hl m) (m_ts m) (st_height s + m_lock m) Open 0 (m_transfer m) dr.
 
@@ -404,7 +418,7 @@ Lemma create_open_rel s m s' : Inv s -> wf_op (Create m) -> create s m = Some s'
 Proof.
   intros I (Hs1 & Hs2). unfold create.
   destruct (negb (create_basic m)) eqn:Hb; [discriminate|]. apply negb_false_iff in Hb.
-  destruct (create_basic_facts m Hb) as [Hpos Hlock].
+  destruct (create_basic_facts m Hb) as [Hpos Hlock]. pose proof (create_basic_addrs m Hb) as Hrng.
   destruct (blocked (m_to m)) eqn:Hbl; [discriminate|].
   assert (Ht2 : m_to m <> BLK) by (unfold blocked in Hbl; apply Z.eqb_neq; exact Hbl).
   destruct (m_to m =? ESC) eqn:Hte; [discriminate|].
@@ -428,7 +442,7 @@ Proof.
       inversion Hf; subst a'; clear Hf. apply Z.ltb_ge in C1.
       unfold add_contract, set_bank_log; constructor; sproj; try reflexivity; try assumption.
       * unfold wfc. cbn. split; [unfold id_of; reflexivity|]. split; [exact Hpos|]. split; [exact Hs1|].
-        split; [exact Hs2|]. split; [exact Ht1|]. split; [exact Ht2|].
+        split; [exact Hs2|]. split; [exact Ht1|]. split; [exact Ht2|]. split; [exact Hrng|].
         split; [exists d, x; split; [exact Ham|congruence]|discriminate].
       * cbn. lia.
       * intros d0. unfold w_esc. cbn. lia.
@@ -452,7 +466,7 @@ Proof.
       inversion Hl; subst s1; clear Hl.
       unfold add_contract, set_bank_log; constructor; sproj; try reflexivity; try assumption.
       * unfold wfc. cbn. split; [unfold id_of; reflexivity|]. split; [exact Hpos|]. split; [exact Hs1|].
-        split; [exact Hs2|]. split; [exact Ht1|]. split; [exact Ht2|].
+        split; [exact Hs2|]. split; [exact Ht1|]. split; [exact Ht2|]. split; [exact Hrng|].
         split; [exists d, x; split; [exact Ham|congruence]|discriminate].
       * cbn. lia.
       * intros d0. cbn. rewrite (send_coins_bal _ _ _ _ _ Hs1 Hsend ESC d0). rewrite Z.eqb_refl, Hesc.
@@ -472,7 +486,7 @@ Proof.
     intros H; inversion H; subst s'; clear H. exists DNone.
     unfold add_contract, set_bank_log; constructor; sproj; try reflexivity; try assumption.
     + unfold wfc. cbn. split; [unfold id_of; reflexivity|]. split; [exact Hpos|]. split; [exact Hs1|].
-      split; [exact Hs2|]. split; [exact Ht1|]. split; [exact Ht2|]. reflexivity.
+      split; [exact Hs2|]. split; [exact Ht1|]. split; [exact Ht2|]. split; [exact Hrng|]. reflexivity.
     + cbn. lia.
     + intros d0. cbn. rewrite (send_coins_bal _ _ _ _ _ Hs1 Hsend ESC d0). rewrite Z.eqb_refl, Hesc.
       unfold w_esc, amt. cbn. lia.
@@ -525,7 +539,7 @@ Lemma claim_complete s id c : Inv s -> get id (st_contracts s) = Some c -> c_sta
     /\ close_rel s (dequeue (set_contract s1 id (close c Completed (st_height s))) (c_exp c) id) id c Completed.
 Proof.
   intros I Hg Ho.
-  destruct (inv_wfc _ I _ _ (get_In _ _ _ Hg)) as (Hid & Hpos & Hs1 & Hs2 & Ht1 & Ht2 & Hkind).
+  destruct (inv_wfc _ I _ _ (get_In _ _ _ Hg)) as (Hid & Hpos & Hs1 & Hs2 & Ht1 & Ht2 & Hrng & Hkind).
   assert (Hbl : blocked (c_to c) = false) by (unfold blocked; apply Z.eqb_neq; exact Ht2).
   assert (Hescto : (ESC =? c_to c) = false) by (apply Z.eqb_neq; congruence).
   assert (Hne : ESC <> c_to c) by congruence.
@@ -637,7 +651,7 @@ Lemma refund_complete s id c : Inv s -> get id (st_contracts s) = Some c -> c_st
   close_rel s (dequeue (refund s id c) (c_exp c) id) id c Refunded.
 Proof.
   intros I Hg Ho.
-  destruct (inv_wfc _ I _ _ (get_In _ _ _ Hg)) as (Hid & Hpos & Hs1 & Hs2 & Ht1 & Ht2 & Hkind).
+  destruct (inv_wfc _ I _ _ (get_In _ _ _ Hg)) as (Hid & Hpos & Hs1 & Hs2 & Ht1 & Ht2 & Hrng & Hkind).
   assert (Hbl : blocked (c_sender c) = false) by (unfold blocked; apply Z.eqb_neq; exact Hs2).
   assert (Hescto : (ESC =? c_sender c) = false) by (apply Z.eqb_neq; congruence).
   assert (Hne : ESC <> c_sender c) by congruence.
@@ -1002,6 +1016,7 @@ Proof.
       unfold get_param in Hp. apply find_some in Hp. destruct Hp as [Hin _].
       unfold params_ok in HP. rewrite Forall_forall in HP. destruct (HP p Hin) as [H1 H2].
       split; [unfold lim_ok; cbn; repeat split; try lia; intros; lia|reflexivity].
+    + constructor.
     + constructor.
   - intros id c Hg. discriminate.
 Qed.
